@@ -96,6 +96,11 @@ def build_corpus(tier, rng):
     thorough = tier == "thorough"
     PLAIN.clear()
     cands = [("regression", it) for it in regression()] + [("overlap", it) for it in overlapping()] + [("prelude-shadow", it) for it in shadowing()] + [("long-spelling", it) for it in c01.long_spellings() if not any(m.kind == "phf" for m in it.metas)]
+    # the enum's OWN NAME coincides with names the phf prologue brings into scope or declares (Map, PHF, ..)
+    for nm in ("Map", "PHF", "Entry", "Value", "Set"):
+        cands.append(("own-name", Item(nm, [Variant("Dust", "unit"), Variant("Inferno", "unit", [], [aci(True, explicit=False), ser("inf")]),
+                                            Variant("Rest", "tuple", [Field("String")], [DEFAULT])])))
+        cands.append(("own-name", Item(nm, [Variant("Map", "unit"), Variant("PHF", "unit", [], [ser("p")])])))
     for it in c01.systematic(rng):
         for v in it.variants:
             if not v.has("default"):
